@@ -23,7 +23,7 @@ Section All.
     Forall (fun r => length r = S h) (flatten t) /\
     (forall d, M_values_at_depth t d = Ok (S_column (flatten t) d)) /\
     M_blocks t = Ok (map (S_column (flatten t)) (seq 0 (S h))) /\
-    (forall key, (length key <= S h)%nat -> M_contains A eqb key t = S_contains A eqb (flatten t) key) /\
+    (forall key, M_contains A eqb key t = S_contains A eqb (flatten t) key) /\
     (forall key, M_leaf_loc A eqb key t 0 = S_lookup A eqb (flatten t) key).
   Proof.
     intros t h Hw. destruct (wf_parts h t Hw) as (H0 & Hu & Ho & Hl).
@@ -33,16 +33,16 @@ Section All.
     split; [apply (flatten_row_length A t h Hu)|].
     split; [intro d; apply (values_at_depth_exact A t h d Hu Ho)|].
     split; [apply (blocks_exact A t h Hu Ho)|].
-    split; [intros key Hk; apply (contains_exact A eqb eqb_spec t h Hu Ho Hl key Hk)|].
+    split; [intro key; apply (contains_exact A eqb eqb_spec t h Hu Ho Hl key)|].
     intro key. apply (lookup_exact A eqb eqb_spec t h Hu Ho Hl key).
   Qed.
 
   (* after every admitted history of append / extend / read, what values_at_depth answers (through the cache)
      is the columns of: the initial tuples followed by the added tuples *)
   Theorem history_blocks : forall ops (st : ihgo A) h,
-    wf A eqb h (g_tree st) = true -> coherent A st -> hist_dom A eqb h st ops = true ->
+    wf A eqb h (g_tree st) = true -> coherent A st -> forallb (op_dom A eqb h) ops = true ->
     go_blocks (fold_left (go_step A eqb) ops st) =
-    Ok (map (S_column (flatten (g_tree st) ++ flat_map (op_rows A) ops)) (seq 0 (S h))).
+    Ok (map (S_column (flatten (g_tree st) ++ hist_rows A eqb st ops)) (seq 0 (S h))).
   Proof.
     intros ops st h Hw Hc Hd.
     destruct (go_history A eqb eqb_spec ops st h Hw Hc Hd) as (W & F & C).
@@ -99,8 +99,9 @@ Proof. vm_compute. repeat split; reflexivity. Qed.
 
 Example ex_history_admitted :
   let st := mk_ihgo (Node 0 [1; 2] [Leaf 0 [1]; Leaf 1 [1]]) None in
-  let ops := [OAppend [2; 2]; ORead; OAppend [3; 1]; OExtend (Node 0 [7] [Leaf 0 [4; 5]]); ORead] in
-  wf Z Z.eqb 1 (g_tree st) = true /\ hist_dom Z Z.eqb 1 st ops = true /\
+  let ops := [OAppend [2; 2]; ORead; OAppend [1; 9]; OAppend [3; 1]; OExtend (Node 0 [7] [Leaf 0 [4; 5]]); ORead] in
+  wf Z Z.eqb 1 (g_tree st) = true /\ forallb (op_dom Z Z.eqb 1) ops = true /\
+  hist_rows Z Z.eqb st ops = [[2; 2]; [3; 1]; [7; 4]; [7; 5]] /\
   M_iter (g_tree (fold_left (go_step Z Z.eqb) ops st)) = Ok [[1; 1]; [2; 1]; [2; 2]; [3; 1]; [7; 4]; [7; 5]].
 Proof. vm_compute. repeat split; reflexivity. Qed.
 
@@ -108,8 +109,10 @@ Proof. vm_compute. repeat split; reflexivity. Qed.
         every run (tools/sfv/props/c05.py:generate): the running offset is offset + level.offset; both LocMap
         lookups of the HLoc branch use partial_selection=True, only the leaf lookup receives the running
         offset; exactly two `except KeyError: pass`; a missing HLoc component defaults to the null slice;
-        KEY_MULTIPLE_TYPES; the GO append descends targets[-1], gives the new subtree the offset node.__len__(),
-        and append/extend set _recache. *)
+        KEY_MULTIPLE_TYPES; the GO append descends targets[-1], gives the new subtree the offset node.__len__() and
+        rejects a present label that is not the last of its level (5320f59); LocMap bounds open slice ends when an
+        offset applies (cc33791); __contains__ requires the key to end at the leaf (248eb88); append/extend set
+        _recache. *)
 Lemma source_shape_ok :
   gen_hloc_next_offset_is_sum = true /\
   gen_hloc_leaf_lookup_partial = true /\
@@ -120,6 +123,9 @@ Lemma source_shape_ok :
   gen_key_multiple_types = ["slice"%string; "list"%string; "ndarray"%string] /\
   gen_go_append_descends_last_edge = true /\
   gen_go_append_new_offset_is_len = true /\
+  gen_go_append_rejects_non_last_label = true /\
+  gen_locmap_open_slice_ends_bounded = true /\
+  gen_contains_requires_key_end = true /\
   gen_go_append_sets_recache = true /\
   gen_go_extend_sets_recache = true.
 Proof. repeat split; reflexivity. Qed.
